@@ -691,6 +691,14 @@ from py2lean_struct import gen_cache_table, gen_effects, Untranslatable as Untra
 
 TARGETS = [gen_sdof_ab, gen_consts, gen_cache_table, gen_effects, gen_design_spectra, gen_factor_rule, gen_ko_window, gen_im_simple]
 
+# plug-in targets: every tools/py2lean_x_<area>.py exposes TARGETS = [gen(repo, ns) -> {file name: text}, …] and raises an exception
+# class named `Untranslatable` (attributes function, line, construct) for source it does not recognise
+import glob  # noqa: E402
+import importlib  # noqa: E402
+sys.path.insert(0, os.path.dirname(os.path.abspath(__file__)))
+for _f in sorted(glob.glob(os.path.join(os.path.dirname(os.path.abspath(__file__)), 'py2lean_x_*.py'))):
+    TARGETS += list(importlib.import_module(os.path.basename(_f)[:-3]).TARGETS)
+
 
 def main():
     ap = argparse.ArgumentParser()
@@ -706,9 +714,14 @@ def main():
     for tgt in TARGETS:
         try:
             files = tgt(args.repo, ns)
-        except (Untranslatable, UntranslatableS) as u:
-            report['untranslatable'].append({'target': tgt.__name__, 'function': u.function, 'line': u.line,
-                                             'construct': u.construct})
+        except Exception as u:  # noqa
+            if type(u).__name__ != 'Untranslatable':
+                if not isinstance(u, (SyntaxError, OSError)):
+                    raise
+                report['untranslatable'].append({'target': tgt.__name__, 'function': '?', 'line': 0, 'construct': repr(u)})
+                continue
+            report['untranslatable'].append({'target': tgt.__name__, 'function': getattr(u, 'function', '?'),
+                                             'line': getattr(u, 'line', 0), 'construct': getattr(u, 'construct', str(u))})
             continue
         except (SyntaxError, OSError) as e:
             report['untranslatable'].append({'target': tgt.__name__, 'function': '?', 'line': 0, 'construct': repr(e)})
